@@ -84,11 +84,11 @@ pthread_barrier_t g_start, g_end, g_exit;
 inline uint8_t pat(int tid, int slot, size_t i) { return (uint8_t)(0x40 + tid * 8 + slot + i * 7); }
 inline void fill(Thread* t, int s) { uint8_t* p = (uint8_t*)t->ptr[s]; for (size_t i = 0; i < t->sz[s]; i++) p[i] = pat(t->id, s, i); }
 inline bool intact(Thread* t, int s, size_t n) { uint8_t* p = (uint8_t*)t->ptr[s]; for (size_t i = 0; i < n; i++) if (p[i] != pat(t->id, s, i)) return false; return true; }
-void release(Thread* t, int s) {
+void release(Thread* t, int s, int form = 0) {
     if (!intact(t, s, t->sz[s]) && !t->bad) { t->bad = 1; snprintf(t->badmsg, sizeof t->badmsg, "thread %d slot %d: contents changed while the block was live (handed out twice?)", t->id, s); }
     switch (t->fam[s]) {
-    case 0: ::operator delete(t->ptr[s]); break;
-    case 1: ::operator delete[](t->ptr[s]); break;
+    case 0: if (form & 1) ::operator delete(t->ptr[s], std::nothrow); else ::operator delete(t->ptr[s]); break;
+    case 1: if (form & 1) ::operator delete[](t->ptr[s], std::nothrow); else ::operator delete[](t->ptr[s]); break;
     default: cpputest_free_location(t->ptr[s], "thread.c", 2); break;
     }
     t->ptr[s] = nullptr;
@@ -107,11 +107,11 @@ void* thread_main(void* arg) {
                 t->ptr[s] = q;
                 if (!intact(t, s, keep) && !t->bad) { t->bad = 1; snprintf(t->badmsg, sizeof t->badmsg, "thread %d: realloc lost the first %zu bytes", t->id, keep); }
                 t->sz[s] = o.size; fill(t, s);
-            } else release(t, s);
+            } else release(t, s, o.kind >> 4);
         } else {
             int fam = o.kind % 3; void* p;
-            if (fam == 0) p = (o.kind & 64) ? ::operator new(o.size, std::nothrow) : ::operator new(o.size);
-            else if (fam == 1) p = (o.kind & 64) ? ::operator new[](o.size, std::nothrow) : ::operator new[](o.size);
+            if (fam == 0) p = (o.kind & 64) ? ::operator new(o.size, std::nothrow) : (o.kind & 32) ? ::operator new(o.size, "thread.cpp", (size_t)6) : ::operator new(o.size);
+            else if (fam == 1) p = (o.kind & 64) ? ::operator new[](o.size, std::nothrow) : (o.kind & 32) ? ::operator new[](o.size, "thread.cpp", (size_t)7) : ::operator new[](o.size);
             else if (o.kind & 64) p = cpputest_realloc_location(nullptr, o.size, "thread.c", 4);   // realloc(NULL, n) is an allocation too
             else if (o.kind & 32) p = cpputest_calloc_location(1, o.size, "thread.c", 5);
             else p = cpputest_malloc_location(o.size, "thread.c", 1);
